@@ -210,3 +210,15 @@ int sprintf(char *s, const char *f, ...) {
     return 0;
 }
 #endif
+
+/* qsort: insertion sort through the caller's comparator (any correct sort gives the same result for a strict weak order;
+ * the library's use in wcsnorm_s sorts <= a dozen 16-byte records by (class, position), a total order) */
+void M(qsort)(void *base, size_t n, size_t sz, int (*cmp)(const void *, const void *)) {
+    unsigned char *b = (unsigned char *)base;
+    for (size_t i = 1; i < n; i++)
+        for (size_t j = i; j > 0; j--) {
+            unsigned char *x = b + (j - 1) * sz, *y = b + j * sz;
+            if (cmp(x, y) <= 0) break;
+            for (size_t k = 0; k < sz; k++) { unsigned char t = x[k]; x[k] = y[k]; y[k] = t; }
+        }
+}
